@@ -391,6 +391,86 @@ def always(R, ctx):
     R.require(rid, "floor", n >= 26, "", "%d rules with a traversal (floor 26)" % n)
 
 
+def numbers_lowered(R, ctx):
+    """After the number-lowering rule no generator writes a Luau-only number form -- from tokens either."""
+    import itertools
+    import re as _re
+    from .. import peval
+    from ..peval import make, Enum, NONE, some
+    from . import c13
+    rid = "C07.numbers"
+    lib = ctx.lib
+    R.rule(rid, "every rule processor that overrides process_number_expression (convert_luau_number), evaluated from its typed tree on binary, "
+                "hexadecimal and decimal literals with and without a stored token (token text with underscores, `0b`/`0B` prefixes, comments "
+                "or spaces attached); the node it leaves is then written by each generator (also evaluated): the text is a Lua 5.1 number "
+                "(no `0b`, no `_`) with the literal's value -- a token kept from the replaced literal would carry the Luau spelling into "
+                "the token-based output although the tree holds no Luau-only node any more")
+    NUM, T = "nodes::expressions::number::", "nodes::token::"
+    procs = [f for k, f in lib.fns.items() if k.startswith("<rules::") and k.endswith(" as process::node_processor::NodeProcessor>::process_number_expression") and thir.body_of(f)]
+    from .. import guards
+    # the lowering processors: those that can REPLACE the number node (token walkers only call methods on it)
+    procs = [f for f in procs if list(guards.node_param_assignments(ctx.an.fa(f["path"]), f))]
+    if not R.require(rid, "anchor:processors", len(procs) >= 1, "", "no rule processor replaces a number in process_number_expression"):
+        return
+    gens = c13.generators(ctx)
+
+    def trivia(text, kind):
+        return make(lib, T + "Trivia", {"position": Enum(T + "Position", "Any", {"content": text}), "kind": Enum(T + "TriviaKind", kind, {})})
+
+    def tok(text, lead=(), trail=()):
+        return some(make(lib, T + "Token", {"position": Enum(T + "Position", "Any", {"content": text}), "leading_trivia": [trivia(*t) for t in lead], "trailing_trivia": [trivia(*t) for t in trail]}))
+    TRIVIA = [((), ()), ((), (("--[[c]]", "Comment"),)), ((("--[[c]]", "Comment"),), ()), ((), ((" ", "Whitespace"),))]
+
+    def literals():
+        for text, value in (("0b101", 5), ("0B1_01", 5), ("0b1111_0000", 240)):
+            for lt in [None] + TRIVIA:
+                t = NONE if lt is None else tok(text, *lt)
+                yield text if lt is not None else "%s (no token)" % text, float(value), Enum(NUM + "NumberExpression", "Binary", {"0": make(lib, NUM + "BinaryNumber", {"value": value, "is_b_uppercase": "B" in text, "token": t})})
+        for text, value in (("0xFF", 255), ("0xF_F", 255), ("0X_ff", 255)):
+            for lt in [None] + TRIVIA:
+                t = NONE if lt is None else tok(text, *lt)
+                yield text if lt is not None else "%s (no token)" % text, float(value), Enum(NUM + "NumberExpression", "Hex", {"0": make(lib, NUM + "HexNumber", {"integer": value, "exponent": NONE, "is_x_uppercase": "X" in text, "token": t})})
+        for text, value in (("1_000", 1000.0), ("1_0.5_0", 10.5), ("12", 12.0)):
+            for lt in [None] + TRIVIA:
+                t = NONE if lt is None else tok(text, *lt)
+                yield text if lt is not None else "%s (no token)" % text, value, Enum(NUM + "NumberExpression", "Decimal", {"0": make(lib, NUM + "DecimalNumber", {"float": value, "exponent": NONE, "token": t})})
+    for pf in procs:
+        owner = pf["path"][1:].split(" as ")[0].split("<")[0]
+        bad, n = [], 0
+        for label, value, node in literals():
+            pe = peval.PEval(lib, ctx.an)
+            try:
+                proc = make(lib, owner, {f["name"]: "" for f in lib.adts[owner]["variants"][0]["fields"] if f["tys"].endswith("str")}) if owner in lib.adts else None
+                pe.call_fn(pf, [proc, node])
+            except peval.OutOfFuel:
+                bad.append((label, "no termination"))
+                continue
+            for G, new, nargs in gens:
+                we, fin = c13.trait_fn(lib, G, "write_expression"), c13.trait_fn(lib, G, "into_string")
+                pe2 = peval.PEval(lib, ctx.an)
+                try:
+                    gen = pe2.call_fn(new, list(nargs))
+                    import copy as _copy
+                    pe2.call_fn(we, [gen, Enum(c13.EXPR, "Number", {"0": _copy.deepcopy(node)})])
+                    text = pe2.call_fn(fin, [gen])
+                except peval.OutOfFuel:
+                    text = None
+                n += 1
+                if not isinstance(text, str):
+                    bad.append((label, "%s: not established %s" % (G.split("::")[-1], (pe.unknown_reasons + pe2.unknown_reasons)[:2])))
+                    continue
+                body = _re.sub(r"--\[\[c\]\]", "", text).strip()
+                m_ = _re.fullmatch(r"0[xX][0-9a-fA-F]+|(?:\d+\.?\d*|\.\d+)(?:[eE][+-]?\d+)?", body)
+                if not m_:
+                    bad.append((label, "%s writes %r, which is not a Lua 5.1 number" % (G.split("::")[-1], text.strip())))
+                    continue
+                got = float(int(body, 16)) if body[:2].lower() == "0x" else float(body)
+                if got != value:
+                    bad.append((label, "%s writes %r (= %r), the literal is %r" % (G.split("::")[-1], text.strip(), got, value)))
+        R.ob(rid, "%s|lua51-numbers" % owner.split("::")[-2], not bad, ctx.where(pf), "%d (literal, generator) cells" % n if not bad else "literal %s: %s" % bad[0])
+        R.require(rid, "%s|floor" % owner.split("::")[-2], n >= 100, "", "%d cells" % n)
+
+
 def run(R, ctx):
     R.explanation = (
         "Structural induction over the AST type graph: visitor child-coverage for all four visitors, callback-before-descent "
@@ -408,6 +488,7 @@ def run(R, ctx):
     pair(R, ctx)
     registry(R, ctx)
     always(R, ctx)
+    numbers_lowered(R, ctx)
     # the replacement written for an interpolated string is never itself an interpolated string (evaluation shared with C06.tostring)
     from . import c06 as _c06
     _c06.format_specifier(R, ctx, rid="C07.replacement.tostring-cells", rid_removed="C07.replacement")
